@@ -395,14 +395,6 @@ class EvaluateImplRoot(EvaluateImpl):
         yield "pup-is-the-value-read", pup == self.local(I, "push_update_pending")
         yield "no-throw-yet", z3.And(self.gget(ctx, "throw_index") == -1, self.gget(ctx, "parent_calls") == 0)
 
-    def local(self, I, name):
-        f = I.ctx.frame
-        while f is not None:
-            for did, b in f.vars.items():
-                if isinstance(b, Loc) and b.key[0] == "L" and b.key[-1] == name:
-                    return I.ctx.load(b)
-            f = f.parent
-        raise Gap("invariant refers to unknown local %s" % name)
 
     def push_frame(self, I, ctx):
         return self.main_frame(I, ctx)
